@@ -102,7 +102,8 @@ def parse_model(out: str):
     toks = left.split() if left.strip() else []
     kv = dict(x.split("=", 1) for x in right.split())
     return {"tokens": toks, "h": int(kv["h"]), "u": int(kv["u"]), "m": int(kv["m"]), "content": kv["content"],
-            "timer": kv["timer"] == "true", "phase": kv.get("phase", "")}
+            "timer": kv["timer"] == "true", "phase": kv.get("phase", ""),
+            "lens": [int(x) for x in kv.get("lens", "").split(",") if x != ""]}
 
 
 def delivered_bytes(case) -> bytes:
@@ -122,6 +123,7 @@ class ConnFamily(Family):
     name = "events"
     quick_n = 3000
     thorough_n = 60000
+    check_lens = True   # also compare WHEN (after which event) the response was written
 
     def gen(self, rng: random.Random, n: int):
         for i in range(n):
@@ -139,7 +141,8 @@ class ConnFamily(Family):
 
     def same(self, exp, obs):
         return (sim.match_tokens(exp["tokens"], obs["acts"]) and exp["h"] == obs["h"] and exp["u"] == obs["u"] and exp["m"] == obs["m"]
-                and exp["content"] == obs["content"] and exp["timer"] == obs["timer"] and obs["dropped"] == 0 and not obs["exc"])
+                and exp["content"] == obs["content"] and exp["timer"] == obs["timer"] and obs["dropped"] == 0 and not obs["exc"]
+                and (not self.check_lens or exp["lens"] == obs["lens"]))
 
     def key(self, case, obs):
         ok, what = sim.wellformed_trace(obs["acts"])
